@@ -26,3 +26,4 @@ def run(ctx):
     H.r15_4_no_node_twice(ctx)
     H.r15_5_decisions(ctx)
     H.r14_6_get_attribute_guarded(ctx, 'R15.6', transforms=True)
+    H.r14_10_get_value_typestate(ctx, 'R15.7')
